@@ -368,6 +368,7 @@ type Result struct {
 	CPUms         int64          `json:"cpu_ms"`
 	Err           string         `json:"err,omitempty"`
 	Partial       bool           `json:"partial,omitempty"`
+	LabMs         int64          `json:"lab_ms,omitempty"` // time spent creating the chain (once per worker)
 }
 
 var (
@@ -589,9 +590,14 @@ func runJob(j Job) (res Result) {
 	if j.Confirm != nil {
 		return runConfirm(j)
 	}
+	labStart := time.Now()
+	fresh := lab == nil
 	if err := ensureLab(); err != nil {
 		res.Err = err.Error()
 		return
+	}
+	if fresh {
+		res.LabMs = time.Since(labStart).Milliseconds()
 	}
 	seq := uint64(0)
 	for _, target := range targetsFor(j.Msg) {
@@ -855,14 +861,17 @@ func main() {
 			jobs = append(jobs, Job{Kind: k, Msg: m, Thorough: !r.Quick(), Deadline: dl})
 		}
 	}
+	t0 := time.Now()
 	resplit := resplitProbe(r)
+	fmt.Printf("cache re-split probe: %d tuples in %.1fs\n", resplit, time.Since(t0).Seconds())
 	pool := mc.NewProcPool(0)
 	results, crashed := mc.Map[Job, Result](pool, jobs, r.Expired)
+	gridWall := time.Since(t0).Seconds()
 	tot := Result{Outcomes: map[string]int{}, Parts: map[string]int{}}
 	perKind := map[string]int{}
 	authPerMsgKind := map[string]int{}
 	var confirm []Job
-	var cpu int64
+	var cpu, labMs, labMax int64
 	done, partial := 0, 0
 	for i, res := range results {
 		if crashed[i] {
@@ -887,6 +896,10 @@ func main() {
 		tot.NA += res.NA
 		tot.AuthSuccess += res.AuthSuccess
 		cpu += res.CPUms
+		labMs += res.LabMs
+		if res.LabMs > labMax {
+			labMax = res.LabMs
+		}
 		perKind[jobs[i].Kind] += res.Cases
 		authPerMsgKind[jobs[i].Msg+"/"+txlab.BaseKind(jobs[i].Kind)] += res.AuthSuccess
 		for k, v := range res.Outcomes {
@@ -974,6 +987,9 @@ func main() {
 		"jobs_done":                done,
 		"jobs_partial":             partial,
 		"cache_resplit_probes":     resplit,
+		"grid_wall_s":              gridWall,
+		"chain_setup_s_total":      float64(labMs) / 1000,
+		"chain_setup_s_max":        float64(labMax) / 1000,
 		"worker_cpu_s":             float64(cpu) / 1000,
 		"kinds":                    kinds,
 		"roles":                    roles,
